@@ -28,9 +28,14 @@ class PullHorizon(BaseException):
     pass
 
 
+class BudgetViolation(BaseException):
+    """bracex was about to be called with an unlimited (or larger than L) budget although a limit is in force."""
+
+
 class Monitor:
-    def __init__(self, horizon):
+    def __init__(self, horizon, L=0):
         self.horizon = horizon
+        self.L = L
         self.pulled = 0
         self.limits = []
         self._orig = None
@@ -41,6 +46,9 @@ class Monitor:
 
         def iexpand(string, keep_escapes=False, limit=1000):
             mon.limits.append(limit)
+            if mon.L and not (0 < limit <= mon.L):
+                # do not let bracex materialise an unbounded expansion: this already is the violation
+                raise BudgetViolation(limit)
             for x in mon._orig(string, keep_escapes=keep_escapes, limit=limit):
                 mon.pulled += 1
                 if mon.pulled > mon.horizon:
@@ -211,12 +219,14 @@ def evaluate(res, ename, inc, exs, how, limit, root):
     inp = {'entry': ename, 'inclusions': inc_t, 'exclusions': ex_t, 'how': how, 'limit': limit}
     res.n['evaluations'] += 1
     horizon = (L if L else 2000) + 5000
-    with Monitor(horizon) as mon:
+    with Monitor(horizon, L) as mon:
         try:
             ENTRY[ename](args[0], args[1], args[2], limit, root)
             outcome = 'ok'
         except PLE:
             outcome = 'raised'
+        except BudgetViolation:
+            outcome = 'budget'
         except PullHorizon:
             outcome = 'horizon'
         except Exception as e:  # noqa: BLE001
@@ -230,6 +240,10 @@ def judge(res, inp, outcome, mon, L, T, U, npat):
     if L and (U > L or T <= L):
         res.n['distinct_nontrivial'] += 1
     res.outcomes.add(outcome + ('/over' if L and U > L else '/under' if (not L or T <= L) else '/between'))
+    if outcome == 'budget':
+        res.add_violation(ID, run.viol('bracex-budget', inp, '0 < limit handed to bracex <= L',
+                                       {'limits_given_to_bracex': mon.limits[:8]}))
+        return
     if outcome == 'horizon':
         res.add_violation(ID, run.viol('unbounded-expansion', inp, 'at most about L+1 expansions generated',
                                        {'pulled_before_horizon': mon.pulled, 'limits_given_to_bracex': mon.limits[:6]}))
@@ -307,12 +321,14 @@ def run_wcmatch(res, limit, root):
     for text, T, U in catalogue(L if L else 5) + ([(HUGE, 10 ** 8, 10 ** 8)] if L else []):
         inp = {'entry': 'WcMatch', 'inclusions': [text], 'exclusions': [], 'how': 'file_pattern', 'limit': limit}
         res.n['evaluations'] += 1
-        with Monitor((L if L else 2000) + 5000) as mon:
+        with Monitor((L if L else 2000) + 5000, L) as mon:
             try:
                 wcmatch_call(text, limit, root)
                 outcome = 'ok'
             except PLE:
                 outcome = 'raised'
+            except BudgetViolation:
+                outcome = 'budget'
             except PullHorizon:
                 outcome = 'horizon'
             except Exception as e:  # noqa: BLE001
@@ -380,12 +396,14 @@ def replay(v):
         if inp['entry'] == 'WcMatch':
             t = inp['inclusions'][0]
             T, U = ent(t)[1:]
-            with Monitor((L if L else 2000) + 5000) as mon:
+            with Monitor((L if L else 2000) + 5000, L) as mon:
                 try:
                     wcmatch_call(t, limit, root)
                     outcome = 'ok'
                 except PLE:
                     outcome = 'raised'
+                except BudgetViolation:
+                    outcome = 'budget'
                 except PullHorizon:
                     outcome = 'horizon'
                 except Exception as e:  # noqa: BLE001
